@@ -75,6 +75,8 @@ def container(vec: Dict[str, Any]):
         return pd.DataFrame([list(arr)] * 1, columns=["a"] * n) if n else pd.DataFrame({"a": arr})
     if cont == "index":
         return pd.DataFrame({"z": list(range(n))}, index=pd.Index(arr, name="i"))
+    if cont == "mi_dupnames":
+        return pd.DataFrame({"z": list(range(n))}, index=pd.MultiIndex.from_arrays([arr, ["p"] * n], names=["i", "i"]))
     if cont == "multiindex":
         return pd.DataFrame({"z": list(range(n))}, index=pd.MultiIndex.from_arrays([arr, ["p"] * n], names=["i", "j"]))
     raise ValueError(cont)
